@@ -368,8 +368,11 @@ func (qrf *QUICRandomFrames) buildInternal(cryptoData []byte, baseOffset uint64)
 	frameList = append(frameList, QUICFrameCrypto{Offset: int(offsetCryptoData), Length: 0}) // 0 means the remaining
 
 	// dry-run to determine the total length of all frames so far
-	// Use baseOffset=0 for the dry-run since we only care about byte count, not wire offsets.
-	dryrunPayload, err := frameList.build(cryptoData, 0)
+	// The byte count depends on the wire offsets: a CRYPTO frame's offset is a varint, and
+	// in every datagram but the first baseOffset pushes it into a wider encoding than the
+	// local offset has. Measuring with baseOffset=0 made the PADDING too long by one byte
+	// (or more) per such frame, so the frames added up to more than Length.
+	dryrunPayload, err := frameList.build(cryptoData, baseOffset)
 	if err != nil {
 		return nil, err
 	}
